@@ -26,8 +26,16 @@ func scriptWithout(base, marker string, lemmasFrom, usesFrom int) string {
 	lines := strings.Split(base, "\n")
 	out := lines[:0:0]
 	for _, l := range lines {
-		if marker != "" && strings.HasSuffix(l, marker) {
-			continue
+		if marker != "" {
+			skip := false
+			for _, m := range strings.Split(marker, "|") {
+				if strings.HasSuffix(l, m) {
+					skip = true
+				}
+			}
+			if skip {
+				continue
+			}
 		}
 		if lemmasFrom > 0 {
 			if i := strings.LastIndex(l, ";;lemma:"); i >= 0 {
@@ -383,8 +391,32 @@ func uniq(in []string) []string {
 }
 
 func (fc *FnCtx) safetyObls() {
-	for i, s := range fc.safetySites {
-		fc.pending = append(fc.pending, pendingObl{name: fmt.Sprintf("#safe.%s.%d", s.kind, i+1), kind: "safety", goal: s.cond, src: s.kind + " at " + s.pos, expect: "unsat", drop: fmt.Sprintf(";;abort:%d;", i+1)})
+	if len(fc.safetySites) > 40 {
+		// many sites (long validation functions): the sites are checked in groups of ten - one query asks whether
+		// any site of the group can fail (the group's own "did not abort here" assumptions are left out)
+		const g = 10
+		for lo := 0; lo < len(fc.safetySites); lo += g {
+			hi := lo + g
+			if hi > len(fc.safetySites) {
+				hi = len(fc.safetySites)
+			}
+			var conds, drops, descr []string
+			seen := map[string]bool{}
+			for i := lo; i < hi; i++ {
+				s := fc.safetySites[i]
+				conds = append(conds, s.cond)
+				drops = append(drops, fmt.Sprintf(";;abort:%d;", i+1))
+				if d := s.kind + " at " + s.pos; !seen[d] {
+					seen[d] = true
+					descr = append(descr, d)
+				}
+			}
+			fc.pending = append(fc.pending, pendingObl{name: fmt.Sprintf("#safe.group.%d-%d", lo+1, hi), kind: "safety", goal: or(conds...), src: strings.Join(descr, "; "), expect: "unsat", drop: strings.Join(drops, "|")})
+		}
+	} else {
+		for i, s := range fc.safetySites {
+			fc.pending = append(fc.pending, pendingObl{name: fmt.Sprintf("#safe.%s.%d", s.kind, i+1), kind: "safety", goal: s.cond, src: s.kind + " at " + s.pos, expect: "unsat", drop: fmt.Sprintf(";;abort:%d;", i+1)})
+		}
 	}
 	n := 0
 	for _, p := range fc.panicSites {
